@@ -1,6 +1,6 @@
 /* @harness c11.input_range
  * @props C11
- * @tier quick
+ * @tier thorough
  * @functions ZSTDMT_tryGetInputRange ZSTDMT_getInputDataInUse ZSTDMT_isOverlapped ZSTDMT_waitForLdmComplete
  * @bounds SEQUENTIAL step (schedules are not explored): one attempt to carve the next input section out of the round buffer, from an ARBITRARY ring state satisfying the layout invariant I_r: ring capacity 8..48, section size 1..8, overlap size 0..8, 0..2 jobs in flight of which the oldest is still reading its input (the others in any state), each job's prefix and source anywhere the layout rules allow (contiguous chain, at most one wrap between consecutive jobs, a wrapped job's prefix copied to the ring start), read cursor of every job arbitrary
  * @assume I_r, in "unrolled" ring coordinates (physical offset = coordinate mod capacity): every job's prefix lies immediately before its source and neither crosses the ring end; consecutive sources are contiguous or separated by exactly one wrap; the ring position is the end of the newest source and the pending prefix is its tail; everything from the oldest in-flight prefix to the ring position spans at most one capacity (this is the part re-proved as post-condition for the section just granted: inductive step); capacity >= overlap size + 2 sections (+1 when the overlap is non-zero), which is what ZSTDMT_initCStream_internal allocates at least (max(window, sections) + slack, overlap <= window); every prefix is at most the overlap size and at most the previous source
